@@ -32,6 +32,11 @@ type Txn struct {
 	Method  string `json:"method"`
 	Headers []KV   `json:"headers,omitempty"` // lower-case keys, sorted
 	Query   []KV   `json:"query,omitempty"`   // in order of appearance
+	// Raw: the request's query string is RawQ as written (it may contain pairs that
+	// cannot be decoded); Query then holds the parameters the harness's own decoder
+	// (querydec.go) reads from it = the well-formed pairs
+	Raw  bool   `json:"raw,omitempty"`
+	RawQ string `json:"rawq,omitempty"`
 	Status  int    `json:"status"`
 	// Resp && NoResp: the REQUEST stream handled as a response (re-typed after an
 	// early response, Stream.executeReq): there is no response object, hence no status
@@ -57,6 +62,9 @@ type Case struct {
 	// loader (streamconfig.GetFlows) before AddFlow (tree level; engine cases are
 	// always loaded that way).  Such cases are evaluated by Model.run_case_loaded.
 	Loader bool `json:"loader,omitempty"`
+	// the requests carry raw query strings (Txn.Raw); evaluated by Model.run_case_rawq,
+	// which decodes the raw string itself and compares with Txn.Query
+	RawQ bool `json:"rawq,omitempty"`
 	// results that read differently after the later transactions of the batch were looked up
 	Mutated []Mutated `json:"mutated,omitempty"`
 }
@@ -115,8 +123,12 @@ func plain(s string) bool {
 	return true
 }
 
-func coqTxn(t Txn) string {
-	if t.Method == "GET" && len(t.Headers)+len(t.Query) == 0 && plain(t.URL) {
+func coqTxn(t Txn) string { return coqTxnX(t, true) }
+
+func coqTxnFull(t Txn) string { return coqTxnX(t, false) }
+
+func coqTxnX(t Txn, abbrev bool) string {
+	if abbrev && t.Method == "GET" && len(t.Headers)+len(t.Query) == 0 && plain(t.URL) {
 		if !t.Resp && t.Status == 0 {
 			return `(rq "` + t.URL + `")`
 		}
@@ -134,6 +146,38 @@ func coqTxn(t Txn) string {
 	return "(mkTxn " + strings.Join([]string{
 		c.B(t.Resp), str(t.URL), str(t.Method), coqKVs(t.Headers), coqKVs(t.Query), c.Z(status),
 	}, " ") + ")"
+}
+
+// rawTxn: a request whose query string is given as written.
+func rawTxn(url, method, raw string, headers []KV) Txn {
+	return Txn{URL: url, Method: method, Headers: headers, Raw: true, RawQ: raw, Query: decodeQuery(raw)}
+}
+
+// rawQueryOf: the query string put on the wire for the transaction.
+func rawQueryOf(t Txn) string {
+	if t.Raw {
+		return t.RawQ
+	}
+	return queryString(t.Query)
+}
+
+// coqCaseRaw: case_rawq = (flows, load flags, [(observation, raw query string)]).
+func coqCaseRaw(k *Case) string {
+	return c.Tuple(
+		c.MapList(k.Flows, coqFlow),
+		c.MapList(k.AddErr, func(b bool) string { return c.B(b) }),
+		c.MapList(k.Obs, func(o Obs) string {
+			sel := make([]int64, len(o.Selected))
+			for i, s := range o.Selected {
+				sel[i] = int64(s)
+			}
+			raw := ""
+			if !o.Txn.Resp {
+				raw = rawQueryOf(o.Txn)
+			}
+			return c.Tuple("ob "+coqTxnFull(o.Txn)+" "+c.ZList(sel), str(raw))
+		}),
+	)
 }
 
 func coqCase(k *Case) string {
